@@ -130,6 +130,14 @@ func c18case(c *wk.Ctx, idx int, r *mrand.Rand, k int, p *big.Int) {
 	}
 	s1 := rbytes(r, []int{0, 1, 8, 16, 32, 64}[r.Intn(6)])
 	s2 := rbytes(r, []int{0, 1, 8, 16, 32, 64}[r.Intn(6)])
+	switch k % 16 { // the corners of "salts of any length", not left to the PRNG
+	case 3:
+		s1, s2 = []byte{}, []byte{}
+	case 7:
+		s1, s2 = nil, nil
+	case 13:
+		s1 = []byte{}
+	}
 	// the server's group: Telegram's usual prime, or (one case in three) another safe prime, for which every g in
 	// 2..7 is valid; the generator is one the specification allows for the modulus (usual prime: 3, 4, 7)
 	if k%3 == 2 {
